@@ -148,6 +148,13 @@ func (i *interpreter) intercept(caller *frame, callpos token.Pos, fn *ssa.Functi
 		i.inited[fn.Pkg] = true
 		return nil, false
 	}
+	// ---- harness-supplied environment stubs: func verifStub_<mangled name>(recv?, args...) ----
+	if stub := i.harnessStub(fn); stub != nil && (caller == nil || !strings.HasPrefix(caller.fn.Name(), "verifStub_")) {
+		w.ses.mu.Lock()
+		w.ses.assumes["environment stub (harness Go code): "+fn.String()] = true
+		w.ses.mu.Unlock()
+		return callSSA(i, caller, callpos, stub, args, nil), true
+	}
 	// ---- harness API (any package) ----
 	if strings.HasPrefix(name, "verif") && fn.Signature.Recv() == nil {
 		switch name {
@@ -213,6 +220,14 @@ func (i *interpreter) intercept(caller *frame, callpos token.Pos, fn *ssa.Functi
 				return vocab[0], true
 			}
 			return w.newEnum(nm, vocab), true
+		case "verifCalledFrom":
+			sub := argStr(args[0])
+			for _, f := range i.stackStrings(200) {
+				if strings.Contains(f, sub) {
+					return true, true
+				}
+			}
+			return false, true
 		case "verifAssume":
 			w.verifAssume(args[0], "")
 			return nil, true
@@ -1094,4 +1109,53 @@ func (i *interpreter) errorsAs(err, target iface) bool {
 		}
 	}
 	return false
+}
+
+
+// stubName mangles a function's full name into the identifier suffix a harness uses to replace
+// it: "(*os.File).Write" -> "os_File_Write", "path/filepath.Walk" -> "filepath_Walk",
+// "(*lunar/engine/routing.HandlingDataManager).reloadFlows" -> "routing_HandlingDataManager_reloadFlows".
+func stubName(full string) string {
+	s := full
+	s = strings.TrimPrefix(s, "(")
+	s = strings.TrimPrefix(s, "*")
+	s = strings.Replace(s, ")", "", 1)
+	if k := strings.LastIndex(s, "/"); k >= 0 {
+		s = s[k+1:]
+	}
+	var b strings.Builder
+	for _, c := range s {
+		if c >= 'a' && c <= 'z' || c >= 'A' && c <= 'Z' || c >= '0' && c <= '9' || c == '_' {
+			b.WriteRune(c)
+		} else {
+			b.WriteByte('_')
+		}
+	}
+	return b.String()
+}
+
+func (i *interpreter) harnessStub(fn *ssa.Function) *ssa.Function {
+	if i.stubs == nil {
+		i.stubs = map[string]*ssa.Function{}
+		if i.mainpkg != nil {
+			for name, mem := range i.mainpkg.Members {
+				if f, ok := mem.(*ssa.Function); ok && strings.HasPrefix(name, "verifStub_") {
+					i.stubs[strings.TrimPrefix(name, "verifStub_")] = f
+				}
+			}
+		}
+		i.stubMemo = map[*ssa.Function]*ssa.Function{}
+	}
+	if len(i.stubs) == 0 {
+		return nil
+	}
+	if s, ok := i.stubMemo[fn]; ok {
+		return s
+	}
+	var s *ssa.Function
+	if fn.Synthetic == "" || fn.Pkg != nil {
+		s = i.stubs[stubName(fn.String())]
+	}
+	i.stubMemo[fn] = s
+	return s
 }
